@@ -23,7 +23,7 @@ ASSUMPTIONS = ['closed form of Appendix B transcribes the statement',
                'arrays are 1-D float64/int16 and 2-D; frame arithmetic does not depend on dtype']
 ANCHORS = ['utils:fit_frames', 'array:Array.iterindices', 'array:Array.iterchunks']
 REQUIRED = ['mon.iterindices_valid', 'mon.iterchunks_valid', 'mon.fit_valid',
-            'mon.invalid_tuples', 'mon.contract_fit_frames', 'mon.history_calls']
+            'mon.invalid_tuples', 'mon.contract_fit_frames', 'mon.history_calls', 'mon.large_chunks']
 MIN_NONTRIVIAL = {'quick': 20000, 'thorough': 200000}
 
 BOUND = {'quick': (9, 6), 'thorough': (14, 9)}
@@ -57,6 +57,8 @@ def cases(tier, seed):
         yield {'kind': 'invalid', 'n': n}
     for k in range(6):
         yield {'kind': 'history', 'k': k}
+    for k in range(6):
+        yield {'kind': 'large', 'k': k}
     yield {'kind': 'fitinvalid'}
     for k in range(16 if tier == 'quick' else 64):
         yield {'kind': 'fitrandom', 'k': k}
@@ -279,8 +281,19 @@ def run_case(case, env):
         a = D.asarray(d / 'h', vals, accessmode='r+')
         argsets = [(c, s, b, e, rem) for c in (1, 2, 3, 5) for s in (None, 1, 2, 4)
                    for b, e in ((None, None), (1, None), (None, 5), (2, 6), (0, n0)) for rem in (True, False)]
-        stages = [('start', None), ('truncate', 4 + case['k'] % 3), ('append', 3), ('truncate', 2), ('append', 6)]
+        stages = [('start', None), ('abandon', None), ('truncate', 4 + case['k'] % 3), ('append', 3), ('abandon', None),
+                  ('truncate', 2), ('append', 6)]
         for stage, arg in stages:
+            if stage == 'abandon':
+                # nested users that end abnormally inside a context: an abandoned generator, a failing read
+                with a.open_array():
+                    for _c in a.iterchunks(2):
+                        break
+                    try:
+                        a[10 ** 6]
+                    except IndexError:
+                        pass
+                continue
             if stage == 'truncate':
                 D.truncate_array(a, arg)
                 vals = vals[:arg]
@@ -317,6 +330,39 @@ def run_case(case, env):
                             g.tobytes() != vals[f0:f1].tobytes() for g, (f0, f1) in zip(got, exp))):
                         res.fail(f'history:chunks-mismatch-after-{stage}',
                                  f'after {stage} (n={n}) iterchunks(c={c}, s={s}, b={b}, e={e}, rem={rem}) yields wrong chunks', stage=stage, n=n)
+        env.scratch.drop(d)
+    elif kind == 'large':
+        # iteration ranges of several MB (read-ahead or block-wise implementations must not cut frames)
+        D = env.darr
+        d = env.scratch.new('large')
+        k = case['k']
+        if k % 2 == 0:
+            vals = (np.arange(5_000_000, dtype='int64') % 251).astype('uint8')
+        else:
+            vals = (np.arange(1_200_000, dtype='int64') % 1000).astype('>f4').reshape(600_000, 2)
+        a = D.asarray(d / 'big', vals)
+        n = len(vals)
+        for c, s in [(1000, 600), (1000, 1700), (64, 48), (100_000, None), (4096, 4095), (700_001, 350_000)][k % 3::3] + [(1000 + k, 999)]:
+            exp = frames(0, n, c, c if s is None else s, True)
+            it = a.iterchunks(c, stepsize=s)
+            nbad = 0
+            for j, (f0, f1) in enumerate(exp):
+                try:
+                    ch = next(it)
+                except StopIteration:
+                    nbad = -1
+                    break
+                res.count('mon.large_chunks')
+                if ch.dtype != vals.dtype or ch.shape != vals[f0:f1].shape or ch.tobytes() != vals[f0:f1].tobytes():
+                    nbad = j + 1
+                    break
+            extra = sum(1 for _ in it) if nbad == 0 else 0
+            sigs.add(('large', k, c, s))
+            if nbad or extra:
+                res.fail('iterchunks-large-range-mismatch',
+                         f'iterchunks(chunklen={c}, stepsize={s}) over {vals.nbytes} bytes: ' +
+                         (f'chunk {nbad - 1} differs from a[frame]' if nbad > 0 else 'too few chunks' if nbad else f'{extra} extra chunks'),
+                         c=c, s=s, n=n)
         env.scratch.drop(d)
     elif kind == 'fitinvalid':
         from darr.utils import fit_frames
